@@ -345,7 +345,11 @@ impl TryFrom<&syn::Type> for RustType {
             syn::Type::Tuple(_) => return Err(RustTypeParseError::UnexpectedParameterizedTuple),
             syn::Type::Reference(reference) => Self::try_from(reference.elem.as_ref())?,
             syn::Type::Path(path) => {
-                let segment = path.path.segments.iter().last().unwrap();
+                let Some(segment) = path.path.segments.iter().last() else {
+                    return Err(RustTypeParseError::UnexpectedToken(
+                        ty.to_token_stream().to_string(),
+                    ));
+                };
                 let id = segment.ident.to_string();
                 let parameters: Vec<Self> = match &segment.arguments {
                     syn::PathArguments::AngleBracketed(angle_bracketed_arguments) => {
@@ -363,24 +367,26 @@ impl TryFrom<&syn::Type> for RustType {
                 };
                 match id.as_str() {
                     "Vec" => Self::Special(SpecialRustType::Vec(
-                        parameters.into_iter().next().unwrap().into(),
+                        first_parameter(&id, parameters)?.into(),
                     )),
                     "Option" => Self::Special(SpecialRustType::Option(
-                        parameters.into_iter().next().unwrap().into(),
+                        first_parameter(&id, parameters)?.into(),
                     )),
                     "HashMap" => {
                         let mut params = parameters.into_iter();
-                        Self::Special(SpecialRustType::HashMap(
-                            params.next().unwrap().into(),
-                            params.next().unwrap().into(),
-                        ))
+                        match (params.next(), params.next()) {
+                            (Some(key), Some(value)) => {
+                                Self::Special(SpecialRustType::HashMap(key.into(), value.into()))
+                            }
+                            _ => return Err(RustTypeParseError::UnsupportedType(vec![id])),
+                        }
                     }
                     "OffsetDateTime" => Self::Special(SpecialRustType::DateTime),
                     "str" | "String" => Self::Special(SpecialRustType::String),
                     // These smart pointers can be treated as their inner type since serde can handle it
                     // See impls of serde::Deserialize
                     "Box" | "Weak" | "Arc" | "Rc" | "Cow" | "ArcWeak" | "RcWeak" | "Cell"
-                    | "Mutex" | "RefCell" | "RwLock" => parameters.into_iter().next().unwrap(),
+                    | "Mutex" | "RefCell" | "RwLock" => first_parameter(&id, parameters)?,
                     "bool" => Self::Special(SpecialRustType::Bool),
                     "char" => Self::Special(SpecialRustType::Char),
                     "u8" => Self::Special(SpecialRustType::U8),
@@ -432,6 +438,15 @@ impl TryFrom<&syn::Type> for RustType {
             }
         })
     }
+}
+
+/// The first generic argument of a container type such as `Vec<T>`; an error if it was written
+/// without type arguments (`Vec`, `Box`, `Vec<'a>`).
+fn first_parameter(id: &str, parameters: Vec<RustType>) -> Result<RustType, RustTypeParseError> {
+    parameters
+        .into_iter()
+        .next()
+        .ok_or_else(|| RustTypeParseError::UnsupportedType(vec![id.to_owned()]))
 }
 
 impl RustType {
